@@ -1,6 +1,8 @@
 import BumpVerif.Proofs.VecOwn
 import BumpVerif.Proofs.VecFilter
 import BumpVerif.Proofs.VecDrain
+import BumpVerif.Proofs.VecExtend
+import BumpVerif.Proofs.VecResize
 /-!
 # C16 (Vec part) — a panicking callback never causes double drops
 
@@ -19,10 +21,11 @@ vector / drop it) preserve it: `C16_then_drop`.
 Status.  Full theorems: `drain_filter` (after the fix of F5 in /repo, commit cdde727: the
 predicate may panic inside a caller's `next()` or inside the destructor, and a yielded element's
 destructor may panic), `retain`, `truncate`, `clear`, `drop` (panicking destructors).
-`into_iter` / `drain` dropped with panicking destructors.  NOT proved here (covered by the
-panic-injection run — drop-ledger oracle + model comparison — only): dedup_by(_key), resize and
-extend_from_slice and clone (panicking `Clone`), extend / splice / from_iter_in (panicking
-iterator), vec!.
+`into_iter` / `drain` dropped with panicking destructors, `dedup_by(_key)` (panicking comparison /
+key function), `extend` and `from_iter_in`/`collect_in` (panicking iterator), `resize`,
+`extend_from_slice` and `clone` (panicking `Clone`).  NOT proved here (covered by the
+panic-injection run — drop-ledger oracle + model comparison — only): splice with a panicking
+iterator, vec!.
 
 History: on the pinned tree the `drain_filter` statement was false (F5): with
 `xs = [0,1,2,3,4,5]`, "remove evens", predicate panicking at index 3 inside the caller's third
@@ -72,6 +75,47 @@ theorem C16_into_iter_drop {c : Cfg} {v : VS} {xs : List Elem} {ins held : List 
   let ⟨lk, a, _⟩ := intoIterOp_own hd h take back forget w ho
   ⟨lk, a⟩
 
+/-- `dedup_by` / `dedup_by_key` / `dedup` with any comparison callback (`cb k a b` = answer of
+the `k`-th comparison, `none` = it panics) and destructors that may panic in the final
+`truncate`: the swap-based partition keeps the slice a permutation at every moment -/
+theorem C16_dedup_by {c : Cfg} {v : VS} {xs : List Elem} {ins held : List Nat} (hd : c.needsDrop = true)
+    (h : RepB c v xs) (cb : Nat → Elem → Elem → Option Bool) (w : W) (ho : Own ins xs w.evs held) :
+    ∃ ys, RepB c (dedupBy c v cb w).1 ys ∧ Own ins ys (dedupBy c v cb w).2.1.evs held := dedupBy_own hd h cb w ho
+
+/-- `extend(iter)` with a caller-supplied iterator that reports any `size_hint` and panics at any
+`next` call: every item is owned by the vector afterwards or was dropped exactly once -/
+theorem C16_extend {c : Cfg} {v : VS} {xs : List Elem} {ins held : List Nat} (hc : CfgOK c) (hd : c.needsDrop = true)
+    (h : RepB c v xs) (s : Src) (w : W) (ho : Own ins xs w.evs (ids s.items ++ held)) :
+    ∃ ys, RepB c (extend c v (.src s) w).1 ys ∧ Own ins ys (extend c v (.src s) w).2.1.evs held := extend_own hc hd h s w ho
+
+/-- `from_iter_in` / `collect_in` with such an iterator -/
+theorem C16_from_iter {c : Cfg} {ins held : List Nat} (hc : CfgOK c) (hd : c.needsDrop = true)
+    (s : Src) (w : W) (ho : Own ins [] w.evs (ids s.items ++ held)) :
+    ∃ ys, (∀ v, (fromIter c (.src s) w).1 = some v → RepB c v ys) ∧ ((fromIter c (.src s) w).1 = none → ys = []) ∧
+      Own ins ys (fromIter c (.src s) w).2.evs held := fromIter_own hc hd s w ho
+
+/-- `resize(new_len, value)` with a `Clone` (growing) or a destructor (shrinking) that panics at
+any call.  `Fresh ins n`: the ids created so far are below the counter clones take their ids
+from; `ins'` = `ins` plus the ids of the clones made. -/
+theorem C16_resize {c : Cfg} {v : VS} {xs : List Elem} {ins held : List Nat} (hc : CfgOK c) (hd : c.needsDrop = true)
+    (hf : c.freshClone = true) (h : RepB c v xs) (n : Nat) (x : Elem) (w : W)
+    (ho : Own ins xs w.evs (x.id :: held)) (hfr : Fresh ins w.nextId) :
+    ∃ ys ins', RepB c (resize c v n x w).1 ys ∧ Own ins' ys (resize c v n x w).2.1.evs held ∧
+      Fresh ins' (resize c v n x w).2.1.nextId := resize_own hc hd hf h n x w ho hfr
+
+/-- `extend_from_slice(&other)` with a `Clone` that panics at any call -/
+theorem C16_extend_from_slice {c : Cfg} {v : VS} {xs : List Elem} {ins held : List Nat} (hc : CfgOK c) (hd : c.needsDrop = true)
+    (hf : c.freshClone = true) (h : RepB c v xs) (src : List Elem) (w : W) (ho : Own ins xs w.evs held) (hfr : Fresh ins w.nextId) :
+    ∃ ys ins', RepB c (extend c v (.cloned src) w).1 ys ∧ Own ins' ys (extend c v (.cloned src) w).2.1.evs held ∧
+      Fresh ins' (extend c v (.cloned src) w).2.1.nextId := extendFromSlice_own hc hd hf h src w ho hfr
+
+/-- `clone()` of the vector with an element `Clone` that panics at any call: the original keeps
+`xs`; the new vector owns the clones made (`ys`), or they were dropped once with it -/
+theorem C16_clone {c : Cfg} {v : VS} {xs : List Elem} {ins held : List Nat} (hc : CfgOK c) (hd : c.needsDrop = true)
+    (hf : c.freshClone = true) (h : RepB c v xs) (w : W) (ho : Own ins xs w.evs held) (hfr : Fresh ins w.nextId) :
+    ∃ ys ins', (∀ nv, (cloneVec c v w).1 = some nv → RepB c nv ys) ∧ ((cloneVec c v w).1 = none → ys = []) ∧
+      Own ins' (xs ++ ys) (cloneVec c v w).2.evs held ∧ Fresh ins' (cloneVec c v w).2.nextId := cloneVec_own hc hd hf h w ho hfr
+
 /-- the "drop the container afterwards" continuation, for any state satisfying the invariant:
 no id is dropped twice, nothing moved out is dropped, what is neither dropped nor moved is
 exactly what leaked or is held elsewhere -/
@@ -107,3 +151,9 @@ end Bump.V.C16
 #print axioms Bump.V.C16.C16_F5_regression
 #print axioms Bump.V.C16.C16_drain_drop
 #print axioms Bump.V.C16.C16_into_iter_drop
+#print axioms Bump.V.C16.C16_dedup_by
+#print axioms Bump.V.C16.C16_extend
+#print axioms Bump.V.C16.C16_from_iter
+#print axioms Bump.V.C16.C16_resize
+#print axioms Bump.V.C16.C16_extend_from_slice
+#print axioms Bump.V.C16.C16_clone
